@@ -318,6 +318,7 @@ type termEnv struct {
 	depth   int
 	recvOf  map[*types.Named]*ctorInfo // immutable receiver fields resolved through constructors
 	visited map[ssa.Value]bool
+	loading map[*ssa.Alloc]bool // cells being resolved (cycle guard of load)
 	// pathPred maps a block to the predecessor it was entered from (tree unfolding)
 	pathPred    map[*ssa.BasicBlock]*ssa.BasicBlock
 	forceInline map[*ssa.Function]bool
@@ -777,13 +778,33 @@ func (e *termEnv) load(u *ssa.UnOp) *Term {
 	case *ssa.Alloc:
 		// store-to-load forwarding for local cells with a single store
 		var stores []*ssa.Store
+		selfCopies := 0
 		if refs := a.Referrers(); refs != nil {
 			for _, r := range *refs {
 				if st, ok := r.(*ssa.Store); ok && st.Addr == ssa.Value(a) {
+					// "*x = *x" (a named result returned as itself through the defer spill) stores nothing new
+					if ld, isLd := st.Val.(*ssa.UnOp); isLd && ld.Op == token.MUL && ld.X == ssa.Value(a) {
+						selfCopies++
+						continue
+					}
 					stores = append(stores, st)
 				}
 			}
 		}
+		if len(stores) == 0 && selfCopies > 0 && !cellEscapes(a) {
+			// never assigned: the zero value it was allocated with
+			if _, isStruct := a.Type().(*types.Pointer).Elem().Underlying().(*types.Struct); !isStruct {
+				return zeroTerm(a.Type().(*types.Pointer).Elem())
+			}
+		}
+		if e.loading == nil {
+			e.loading = map[*ssa.Alloc]bool{}
+		}
+		if e.loading[a] {
+			return tleaf(fmt.Sprintf("local:%s", typeShort(a.Type())))
+		}
+		e.loading[a] = true
+		defer delete(e.loading, a)
 		if len(stores) == 1 {
 			// a local whose address is handed to a call (e.g. filled in by Unmarshal) no longer holds what was stored:
 			// it is named like its fields are ("alloc:T")
@@ -1766,4 +1787,24 @@ func immutableCond(v ssa.Value) bool {
 		return false
 	}
 	return ok(v, 0)
+}
+
+// cellEscapes: the address of the local is used for anything but loads and stores (handed to a call, captured, ...).
+func cellEscapes(a *ssa.Alloc) bool {
+	refs := a.Referrers()
+	if refs == nil {
+		return false
+	}
+	for _, r := range *refs {
+		switch x := r.(type) {
+		case *ssa.Store:
+			if x.Val == ssa.Value(a) {
+				return true
+			}
+		case *ssa.UnOp, *ssa.DebugRef:
+		default:
+			return true
+		}
+	}
+	return false
 }
